@@ -5,6 +5,7 @@
 package netpoll
 
 import (
+	"io"
 	"context"
 	"fmt"
 	"net"
@@ -40,7 +41,23 @@ func vrJitter(id int, obj interface{}, arg int) {
 	}
 }
 
+// vrEmfile makes netpoll's accept wrapper report EMFILE while it is set. Plain variable, read
+// in a //go:norace function: the fault switch must not add happens-before edges either.
+var vrEmfile bool
+
+//go:norace
+func vrFault(site, fd int) syscall.Errno {
+	if site == vfltAccept && vrEmfile {
+		return syscall.EMFILE
+	}
+	return 0
+}
+
+//go:norace
+func vrSetEmfile(on bool) { vrEmfile = on }
+
 func vrInstall(mode string, seed uint64) {
+	verifFaultHandler.Store(func(site, fd int) syscall.Errno { return vrFault(site, fd) })
 	switch mode {
 	case "jitter":
 		vrSeed, vrPM = seed, 150
@@ -63,7 +80,7 @@ func vrHitsSnapshot() map[string]uint64 {
 
 func vcScenC19(t *vcTrial) {
 	r := t.R
-	w := []string{"echo", "echo", "closers", "dials", "bigwrites", "pool", "slices", "shutdown", "lifecycle", "lifecycle"}[r.intn(10)]
+	w := []string{"echo", "echo", "closers", "dials", "bigwrites", "pool", "slices", "shutdown", "lifecycle", "lifecycle", "manyconns", "emfile"}[r.intn(12)]
 	t.P("workload", w)
 	switch w {
 	case "echo":
@@ -82,6 +99,10 @@ func vcScenC19(t *vcTrial) {
 		vrSlices(t)
 	case "lifecycle":
 		vrLifecycle(t)
+	case "manyconns":
+		vrManyConns(t)
+	case "emfile":
+		vrEmfileThenShutdown(t)
 	}
 	t.Nontrivial = true
 	t.Sig = w + "|" + vfEnvStr("VERIF_RACE_MODE", "off")
@@ -522,4 +543,84 @@ func vrLifecycle(t *vcTrial) {
 	serving.Wait()
 	t.Stat("lifecycle_clients", nclients)
 	t.Stat("lifecycle_disconnects", int(atomic.LoadInt32(&disconnects)))
+}
+
+// vrManyConns: more live connections on one poller than one block of its operator cache holds
+// (the cache grows in a dialling goroutine while the poller recycles freed slots after a batch).
+func vrManyConns(t *vcTrial) {
+	r := t.R
+	evl, ln, serving, err := vrEchoServer(t, "unix")
+	if err != nil {
+		t.Inconclusive("server: %v", err)
+		return
+	}
+	n := r.rng(45, 95)
+	var conns []Connection
+	dial := func() {
+		c, err := DialConnection("unix", ln.Addr().String(), 2*time.Second)
+		if err == nil {
+			conns = append(conns, c)
+		}
+	}
+	for i := 0; i < n; i++ {
+		dial()
+		if i%9 == 8 && len(conns) > 3 {
+			// close one in the middle of the growth and send on another: the poller ends a batch with a
+			// freed slot waiting while the next dials make the cache grow
+			k := r.intn(len(conns))
+			conns[k].Close()
+			conns = append(conns[:k], conns[k+1:]...)
+			c := conns[r.intn(len(conns))]
+			c.Writer().WriteBinary([]byte("ping"))
+			c.Writer().Flush()
+		}
+	}
+	for _, c := range conns {
+		c.Writer().WriteBinary([]byte("x"))
+		c.Writer().Flush()
+	}
+	time.Sleep(2 * time.Millisecond)
+	for _, c := range conns {
+		c.Close()
+	}
+	ctx, cancel := context.WithTimeout(context.Background(), 2*time.Second)
+	evl.Shutdown(ctx)
+	cancel()
+	serving.Wait()
+	t.Stat("manyconns_dials", n)
+}
+
+// vrEmfileThenShutdown: an EMFILE episode (detach, back-off goroutine, re-registration), ordinary
+// traffic afterwards, then Shutdown from the trial's goroutine.
+func vrEmfileThenShutdown(t *vcTrial) {
+	r := t.R
+	evl, ln, serving, err := vrEchoServer(t, []string{"tcp", "unix"}[r.intn(2)])
+	if err != nil {
+		t.Inconclusive("server: %v", err)
+		return
+	}
+	network := ln.Addr().Network()
+	vrSetEmfile(true)
+	c1, err1 := net.DialTimeout(network, ln.Addr().String(), 2*time.Second)
+	time.Sleep(time.Duration(r.rng(5, 70)) * time.Millisecond) // the retry loop fails a few times
+	vrSetEmfile(false)
+	echo := func(c net.Conn) {
+		c.SetDeadline(time.Now().Add(3 * time.Second))
+		c.Write([]byte("hello"))
+		io.ReadFull(c, make([]byte, 5))
+	}
+	if err1 == nil {
+		echo(c1)
+		c1.Close()
+	}
+	if c2, err := net.DialTimeout(network, ln.Addr().String(), 2*time.Second); err == nil {
+		echo(c2)
+		c2.Close()
+	}
+	time.Sleep(time.Duration(r.rng(1, 20)) * time.Millisecond)
+	ctx, cancel := context.WithTimeout(context.Background(), 2*time.Second)
+	evl.Shutdown(ctx)
+	cancel()
+	serving.Wait()
+	t.Stat("emfile_shutdown_workloads", 1)
 }
